@@ -68,7 +68,8 @@ pub mod lab {
     pub const DEFAULT_CTOR: u32 = 51;
     pub const CLONE_RING_IN: u32 = 52;
     pub const CLONE_MAKES_UNIQUE: u32 = 53;
-    pub const NAMES: [&str; 54] = [
+    pub const DROP_WHILE_UNWINDING: u32 = 54;
+    pub const NAMES: [&str; 55] = [
         "group>=2_collected",
         "group>=3_collected",
         "zero_count_death_with_records",
@@ -123,6 +124,7 @@ pub mod lab {
         "constructed_by_rc_default",
         "payload_clone_put_the_object_into_a_ring_and_dropped_its_outside_handles",
         "payload_clone_removed_every_other_handle_to_the_object",
+        "handle_dropped_while_the_thread_is_unwinding",
     ];
 }
 
